@@ -38,7 +38,13 @@ fn gen(seed: u64, idx: u64, _tier: Tier) -> Plan {
     world_knobs(&mut rng, &mut plan, false);
     if scenario == "c20.failing_startup" {
         // configurations that make start-up fail in different ways, with the seed present
-        match rng.below(6) {
+        match rng.below(9) {
+            6 | 7 => {
+                // the health port is held by another program: the listener cannot be bound
+                s.health_port = Some(8000);
+                plan.step(0, Action::ForeignTcpListen { port: 8000 });
+            }
+            8 => plan.step(0, Action::ForeignUdpBind { port: s.port as u16 }),
             0 => s.batch_size = 0,
             1 => s.fault_pct = 77,
             2 => s.extra.push(("bogus_key".into(), "1".into())),
